@@ -324,6 +324,9 @@ type c07Task struct {
 	Merge    int
 	Bound    int
 	MaxRuns  int
+	// Lo/Hi restrict the position of the first deviation to [Lo,Hi) (Hi == 0: no restriction), so
+	// that deep searches are split over several (recycled) worker processes
+	Lo, Hi int
 }
 
 type c07Result struct {
@@ -381,6 +384,9 @@ func c07Worker(tb []byte, progress func()) []byte {
 			from = devs[len(devs)-1].Pos + 1
 		}
 		for p := from; p < len(r.Alts); p++ {
+			if depth == 0 && t.Hi > 0 && (p < t.Lo || p >= t.Hi) {
+				continue
+			}
 			for _, a := range r.Alts[p] {
 				k, n := parseAlt(a)
 				explore(append(append([]deviation{}, devs...), deviation{Pos: p, Kind: k, Arg: n}), depth+1)
